@@ -208,8 +208,16 @@ func (vm *VM) convertPanic(msg any) error {
 			}
 		}
 	case OpMakeChan, -OpMakeChan:
-		if err, ok := msg.(string); ok && err == "reflect.MakeChan: negative buffer size" {
-			return vm.newPanic(runtimeError("makechan: size out of range"))
+		switch err := msg.(type) {
+		case string:
+			if err == "reflect.MakeChan: negative buffer size" {
+				return vm.newPanic(runtimeError("makechan: size out of range"))
+			}
+		case runtime.Error:
+			// The size exceeds the maximum allocation size.
+			if s := err.Error(); s == "makechan: size out of range" {
+				return vm.newPanic(runtimeError(s))
+			}
 		}
 	case OpMakeSlice:
 		switch err := msg.(type) {
